@@ -512,6 +512,30 @@ pub fn c17_step(_st: &mut C17State, pre: &StoreSnap, post: &StoreSnap, step: &St
                 }
             }
         }
+        // the liquidator's withdrawal inside a receivership bracket is a successful withdrawal too
+        Op::Receivership { .. } => {
+            if step.ok {
+                if let (Some(b0), Some(b1)) = (pre.banks.get(&key), post.banks.get(&key)) {
+                    if b1.a_bits < b0.a_bits && b1.assets() + ulp() <= b1.liabs() {
+                        out.push(finding("caps:utilization", format!("op#{}: after a receivership withdrawal deposits {} < debt {}", step.index, q_str(&b1.assets()), q_str(&b1.liabs()))));
+                    }
+                }
+            }
+        }
+        // a borrow inside a flash-loan bracket that is not repaid in it is a successful borrow
+        Op::Flash { repay: false, .. } => {
+            if step.ok {
+                if let (Some(b0), Some(b1)) = (pre.banks.get(&key), post.banks.get(&key)) {
+                    let grew = b1.l_bits > b0.l_bits;
+                    if grew && b1.borrow_limit != u64::MAX && b1.liabs() >= q_int(b1.borrow_limit) {
+                        out.push(finding("caps:borrow-limit", format!("op#{}: flash-loan borrow committed with total debt {} >= limit {}", step.index, q_str(&b1.liabs()), b1.borrow_limit)));
+                    }
+                    if grew && b1.assets() + ulp() <= b1.liabs() {
+                        out.push(finding("caps:utilization", format!("op#{}: after a flash-loan borrow deposits {} < debt {}", step.index, q_str(&b1.assets()), q_str(&b1.liabs()))));
+                    }
+                }
+            }
+        }
         _ => {}
     }
     out
